@@ -14,12 +14,7 @@ sys.path.insert(0, "/repo")
 
 IDS = ["C%02d" % i for i in range(1, 21)]
 # modules that exist but are not yet quiet / reviewed: not claimed until they are
-PENDING = {
-    "C06": "check module under construction (precession): not yet reviewed and quiet on the unchanged tree",
-    "C08": "check module under construction (Sun/Earth frames): not yet reviewed and quiet on the unchanged tree",
-    "C13": "check module under construction (planetary event finders): not yet reviewed and quiet on the unchanged tree",
-    "C20": "check built; waiting for the C06/C13 repairs and known findings it shares before it is quiet on the unchanged tree",
-}
+PENDING = {}
 NOT_BUILT = "check not built yet in this session (designed in DESIGN.md section 5; to be claimed once its module is committed and quiet on the unchanged tree)"
 
 
